@@ -60,16 +60,16 @@ class Deseasonalizer(_SeriesToSeriesTransformer):
 
     def _align_seasonal(self, y):
         """Align seasonal components with y's time index"""
-        shift = (
-            -_get_duration(
-                y.index[0],
-                self._y_index[0],
-                coerce_to_int=True,
-                unit=_get_freq(self._y_index),
-            )
+        # the component of a time point is given by its distance from the start
+        # of the training series modulo sp; y's index may have gaps (e.g. a
+        # forecasting horizon [1, 4]), so this is computed for every time point
+        unit = _get_freq(self._y_index)
+        positions = [
+            _get_duration(time_point, self._y_index[0], coerce_to_int=True, unit=unit)
             % self.sp
-        )
-        return np.resize(np.roll(self.seasonal_, shift=shift), y.shape[0])
+            for time_point in y.index
+        ]
+        return np.asarray(self.seasonal_)[positions]
 
     def fit(self, Z, X=None):
         """Fit to data.
